@@ -26,6 +26,7 @@ type entry struct {
 	name     string
 	v        rel.Value
 	canon    string
+	repr     string // printed form: a second, independent view (headers of relations are only visible here)
 	class    string
 	src      string // the op that made it
 	operands []int
@@ -101,13 +102,18 @@ func (s *state) lit(kind int) string {
 			parts = append(parts, fmt.Sprintf("%s: %s", s.key(), s.small()))
 		}
 		return "{" + strings.Join(parts, ", ") + "}"
-	case 4: // relation
+	case 4: // relation (2-3 attributes; joins of these add columns to rows and names to headers)
+		hdrs := [][]string{{"x", "y"}, {"y", "z"}, {"x", "z"}, {"x", "y", "z"}, {"x", "y", "z"}, {"z", "w"}, {"y", "w"}, {"z", "v"}, {"y", "v"}, {"z", "u"}, {"x", "y", "z", "w", "v"}}
+		hdr := hdrs[t.Draw(len(hdrs))]
 		var rows []string
 		for i := 0; i <= n; i++ {
-			rows = append(rows, fmt.Sprintf("(%d, %d)", t.Draw(3), t.Draw(4)))
+			var cells []string
+			for range hdr {
+				cells = append(cells, fmt.Sprint(t.Draw(3)))
+			}
+			rows = append(rows, "("+strings.Join(cells, ", ")+")")
 		}
-		hdr := [][2]string{{"x", "y"}, {"y", "z"}, {"x", "z"}, {"y", "x"}}[t.Draw(4)]
-		return fmt.Sprintf("{|%s, %s| %s}", hdr[0], hdr[1], strings.Join(rows, ", "))
+		return fmt.Sprintf("{|%s| %s}", strings.Join(hdr, ", "), strings.Join(rows, ", "))
 	case 5: // tuple
 		var parts []string
 		for i := 0; i < n; i++ {
@@ -227,7 +233,7 @@ var seqKinds = []string{"with-end", "with-any", "without-last", "without-first",
 	"union", "inter", "diff", "where", "map", "seq.concat", "seq.join", "seq.split", "seq.sub", "seq.repeat", "seq.trim_prefix", "seq.trim_suffix",
 	"pat-tail", "pat-init", "call", "with-pair"}
 var dictKinds = []string{"dict-with", "dict-merge", "union", "diff", "seqmap", "dict-without", "pat-dict", "where", "call", "inter"}
-var relKinds = []string{"join", "compose", "joinexist", "nest", "where", "map", "rel-with", "rel-without", "union", "diff", "inter", "rank", "orderby", "project"}
+var relKinds = []string{"join", "join", "join", "compose", "joinexist", "nest", "where", "map", "rel-with", "rel-without", "union", "diff", "inter", "rank", "orderby", "project"}
 var tupleKinds = []string{"tuple-merge", "pat-tuple", "tuple-get", "tuple-map"}
 var setKinds = []string{"set-with", "set-without", "union", "diff", "inter", "where", "map", "orderby"}
 
@@ -391,9 +397,18 @@ func (s *state) opOn(i int, e *entry, forceKind string) *op {
 	case "pat-dict":
 		o.src = fmt.Sprintf("let {%s: _, ...r} = %s; r", s.keyOf(e), n)
 	case "join", "compose", "joinexist":
-		j, m := other("rel")
-		o.operands = append(o.operands, j)
-		o.src = fmt.Sprintf("%s %s %s", n, map[string]string{"join": "<&>", "compose": "<->", "joinexist": "-&-"}[kind], m)
+		opr := map[string]string{"join": "<&>", "compose": "<->", "joinexist": "-&-"}[kind]
+		if t.Bool(1, 2) {
+			// a fresh right-hand side that matches every key value and brings one new column: two such joins
+			// from one parent are siblings whose rows and headers grow from the same storage
+			col := []string{"w", "v", "u", "q", "p"}[t.Draw(5)]
+			key := []string{"z", "y", "x", "w", "v"}[t.Draw(5)]
+			o.src = fmt.Sprintf("%s %s {|%s, %s| (0, %d), (1, %d), (2, %d), (%d, %d)}", n, opr, key, col, t.Draw(9), t.Draw(9), t.Draw(9), t.Draw(9), t.Draw(9))
+		} else {
+			j, m := other("rel")
+			o.operands = append(o.operands, j)
+			o.src = fmt.Sprintf("%s %s %s", n, opr, m)
+		}
 	case "nest":
 		o.src = fmt.Sprintf("%s nest ~|x|g", n)
 		if t.Bool(1, 2) {
@@ -479,7 +494,7 @@ func (s *state) keyOf(e *entry) string {
 }
 
 func (s *state) add(v rel.Value, src, kind string, operands []int) *entry {
-	e := &entry{name: fmt.Sprintf("v%d", len(s.pool)), v: v, canon: enc.Canon(v), class: enc.Class(v), src: src, operands: operands, holed: holed(v)}
+	e := &entry{name: fmt.Sprintf("v%d", len(s.pool)), v: v, canon: enc.Canon(v), repr: v.String(), class: enc.Class(v), src: src, operands: operands, holed: holed(v)}
 	for _, i := range operands {
 		s.pool[i].children++
 	}
@@ -562,6 +577,18 @@ func Run(c *run.Ctx) {
 			if now != e.canon {
 				c.Violate("immutable", "C03/"+o.kind+"/"+e.class,
 					"after `%s`: %s (made by `%s`) changed from %s to %s", o.src, e.name, e.src, e.canon, now)
+				return
+			}
+			// printing is the second view; an unrecoverable failure here (stack overflow) kills the worker and is
+			// reported by the orchestrator as a crash verdict of this run
+			var printed string
+			if msg, frame, p := run.Guard(func() { printed = e.v.String() }); p {
+				c.Violate("immutable", "C03/"+o.kind+"/"+e.class+"/print-panic", "after `%s`: printing %s (made by `%s`) panics: %s at %s", o.src, e.name, e.src, msg, frame)
+				return
+			}
+			if printed != e.repr {
+				c.Violate("immutable", "C03/"+o.kind+"/"+e.class+"/printed",
+					"after `%s`: %s (made by `%s`) printed %s before and prints %s now", o.src, e.name, e.src, e.repr, printed)
 				return
 			}
 		}
